@@ -30,7 +30,7 @@ PROPS['C19'] = dict(
 )
 
 TREE_RULE = ('choice tape -> key-universe size in {4,8,12,16,32,64,128,256} and a history of <= 400 ops (search, insert x3, remove x2 of a present key, '
-             'duplicate insert of a resident key, bulk insert of 8..64 keys, manual link + insert_adjust) with a comparator whose style is fixed per history (-1/0/+1, key difference, x1000, INT_MIN/INT_MAX, asymmetric mixes: the contract is the sign) on one tree whose nodes are separate 0xCC-poisoned heap blocks; two builds: the default packed node layout and the unpacked one (A_SIZE_POINTER=1: separate parent and balance/colour members); one tape in 16 (rapidcheck processes) instead builds the minimal-node AVL shape of height 10..20 (143..28656 nodes, level by level) and removes keys at both ends, at the root and at random, with the full walk after each; after every call a full walk checks links, order, '
+             'duplicate insert of a resident key (a second object, or the resident element itself), bulk insert of 8..64 keys, manual link + insert_adjust) with a comparator whose style is fixed per history (-1/0/+1, key difference, x1000, INT_MIN/INT_MAX, asymmetric mixes: the contract is the sign) on one tree whose nodes are separate 0xCC-poisoned heap blocks; two builds: the default packed node layout and the unpacked one (A_SIZE_POINTER=1: separate parent and balance/colour members); one tape in 16 (rapidcheck processes) instead builds the minimal-node AVL shape of height 10..20 (143..28656 nodes, level by level) and removes keys at both ends, at the root and at random, with the full walk after each; after every call a full walk checks links, order, '
              'balance/colour invariants and identity against a std::map model; non-trivial = >= 8 successful inserts, >= 1 removal of a two-child node '
              'and >= 1 insert after a removal; distinct = hash of (universe, decoded op/key sequence)')
 TREE_ASSUME = COMMON_ASSUME + ['model: std::map<int, node*>; the walk reads the public node fields and decodes parent_ as documented in the header',
@@ -88,7 +88,7 @@ PROPS['C04'] = dict(
          'optional second container, then <= 300 ops (push/pull either end, insert/remove/store/erase at indices from {in range, 0, 1, n/2, n-1, n, n+1, 2n+1, 2^31, 2^32-1, 2^63, '
          'SIZE_MAX-1, SIZE_MAX}, erase counts incl. SIZE_MAX and counts that wrap idx+num, setn/setm/setz, sort, push+sort_fore/sort_back, push_sort, search, swap, at/of/top/end, '
          'fill-to-capacity); after every op count<=capacity, payload bytes and returned pointers are compared with a std::vector model, the claimed capacity is touched under ASan and the '
-         'allocator ledger is checked; non-trivial = a positional remove or sort_fore/sort_back ran in BOTH capacity states (spare slot / exactly full) or an index >= 2^32 was used; '
+         'allocator ledger is checked (allocator policy per history: always move, or grow in place within a size class); non-trivial = a positional remove or sort_fore/sort_back ran in BOTH capacity states (spare slot / exactly full) or an index >= 2^32 was used; '
          'distinct = hash of the decoded header and op bytes',
     assumptions=COMMON_ASSUME + ['model: std::vector<std::vector<uint8_t>>; sorted variants judged by a validity predicate (sorted + multiset preserved), tie positions free',
                                  'store counts are bounded by the source block the caller really passes (<= 6 elements); indices and erase counts are unbounded',
@@ -129,7 +129,7 @@ PROPS['C06'] = dict(
          '%%, %g, mixed) compared with snprintf on the same arguments, a_utf_catc over all six encoding lengths, getc/getn (with/without destination, counts up to SIZE_MAX), trim/ltrim/rtrim '
          'with default white space and explicit sets (incl. NUL, high bytes, "every byte of the content"), setn/setn_ within capacity, setm (incl. reservations of 200..65536 bytes), index accessors at/at_/of, a_utf_len against a_utf_length, a_str_cmp_/cmpn on prefixes of the other string and of the storage of the string itself, exit (ownership hand-over, block checked and released), '
          'swap, dtor+ctor, cmp/cmpn/cmps; after every op len<=mem, content, and the NUL after the content (after terminating variants) are checked against std::string under ASan with an '
-         'allocator ledger. non-trivial = history with a reallocation of a non-empty string, a formatted append that exactly fills the spare capacity, or a trim that empties a string of >= 2 bytes; '
+         'allocator ledger (allocator policy per history: always move, or grow in place within a size class). non-trivial = history with a reallocation of a non-empty string, a formatted append that exactly fills the spare capacity, or a trim that empties a string of >= 2 bytes; '
          'distinct = hash of the decoded op bytes',
     assumptions=COMMON_ASSUME + ['self-aliasing appends (a_str_cat(ctx, ctx)) are not generated', 'default white-space set = C locale isspace',
                                  'a_str_setm_ (unchecked) is not called with a capacity below the length'],
@@ -150,7 +150,7 @@ PROPS['C07'] = dict(
          'non-trivial = history in which an injected fault hit a library request in an op that was not the first; evaluations = histories, oracle_evaluations counts ops plus faulty executions; '
          'distinct = hash of (decoded history, N)',
     assumptions=COMMON_ASSUME + ['a_que_setz: its documented effect begins with an unconditional drop, so after a failed setz the queue may be validly empty with its old element size (declared reading, DESIGN §4 C07)',
-                                 'the allocator shim always relocates on growth (exact-size blocks), so stale pointers are ASan errors',
+                                 'the allocator shim follows one of two policies per history: every reallocation moves the block (exact-size blocks, stale pointers are ASan errors), or blocks grow in place inside their power-of-two size class with the slack poisoned',
                                  'fault positions are enumerated exhaustively per history (up to 96 requests); histories themselves are sampled'],
     units=lambda tier, seed: [Unit('vecbuf', 'exec/C04.cc', SEQ_SRC, exec_defs=['-DVP_FAULT'], tape_len=120),
                               Unit('que', 'exec/C05_que.cc', ['a.c', 'que.c'], exec_defs=['-DVP_FAULT'], tape_len=120),
@@ -165,7 +165,7 @@ PROPS['C07'] = dict(
 PROPS['C09'] = dict(
     level='exploration',
     rule='three builds: a_real = double, float, long double (A_SIZE_REAL = 8 / 4 / 16). choice tape -> up to 8 sub-cases: kernel in {mulmm, mulTm, mulmT, mulTT, T2 (+back), T1 (vs T2, twice), eye1/eye2, tri1/tri2, diag+diag1, diag2, triL/triL1/triL2/triU/triU1/triU2}, '
-         'row/col/inner dimensions independent in 1..9 (thorough: 1..20), one case in 16 with dimensions from {15..140}, contents from three classes (small integers, integers with signed zeros, reals with exponents 2^-8..2^8, in a quarter of the fills stretched to 2^+-24 / 2^+-400 / 2^+-7200 by type - beyond the double range in the long double build); in a quarter of the product cases the two read-only operands share storage (the smaller is the leading part of the larger); inputs and outputs are '
+         'row/col/inner dimensions independent in 1..9 (thorough: 1..20), one case in 16 with dimensions from {15..140}, contents from three classes (small integers, integers with signed zeros, reals with exponents 2^-8..2^8, in a quarter of the fills stretched to 2^+-24 / 2^+-400 / 2^+-7200 by type - beyond the double range in the long double build); in a quarter of the product cases the two read-only operands share storage (the smaller is the leading part of the larger), in another quarter X, Y and Z are carved back to back in any order out of one block; inputs and outputs are '
          'exact-size heap blocks under ASan, outputs pre-filled with a signalling value so that unwritten cells are detected; products compared exactly with a long double triple loop for the integer classes and within '
          '4*(k+1)*u*sum|x||y| for reals; all other kernels compared bitwise with the pattern written from the header text. non-trivial = rows != cols for a rectangular kernel, three pairwise different '
          'dimensions for a product, or T1 on n >= 3; distinct = hash of (kernel, dimensions, contents)',
@@ -186,7 +186,7 @@ PROPS['C08'] = dict(
     rule='three builds of the library and executor: a_real = double, float and long double (A_SIZE_REAL = 8 / 4 / 16), unit roundoff u of that type in every bound. choice tape -> factorisation (PLU / LDL^T / LL^T), order n in 1..12 (thorough 1..32), occasionally 13..65 pattern-filled, matrix class: small integers, reals, rows/cols scaled by 2^+-k, near-singular rank-one + 2^-30 noise, '
          'pivot exchange forced at the last step, Hilbert/Vandermonde-like, global scale 2^s (|s| <= 30 / 300 / 4800 for float / double / long double builds, the last reaching beyond the double range), wide-exponent reals, strictly diagonally dominant integers (must succeed), and exactly singular classes '
          'whose elimination is exact: zero column, bit-identical rows, zero row (PLU); integer unit-L * D * L^T with a zero in D (LDL^T); integer L*L^T with a zero diagonal entry or a pivot made negative (LL^T); '
-         'badly scaled block-diagonal classes (uncoupled blocks multiplied by 4^S, S over +-505 / +-57 / +-8185 by type: pivots from ~min to ~max in one matrix; solve and inverse are skipped there), strided triangular solves (lower_/upper_) on one column of an n x n block; symmetric inputs get their strict upper triangle poisoned in half of the cases (the code reads only the lower triangle). Oracle in long double: permutation + parity = sign, |L_ij| <= 1, positive Cholesky diagonal, '
+         'badly scaled block-diagonal classes (uncoupled blocks multiplied by 4^S, S over +-505 / +-57 / +-8185 by type: pivots from ~min to ~max in one matrix; solve and inverse are skipped there), strided triangular solves (lower_/upper_) on one column of an n x n block, solves with the factors returned by plu_L / plu_U / llt_L; symmetric inputs get their strict upper triangle poisoned in half of the cases (the code reads only the lower triangle). Oracle in long double: permutation + parity = sign, |L_ij| <= 1, positive Cholesky diagonal, '
          'componentwise |PA-LU| <= 4*gamma_n|L||U| (gamma_2n for LDL^T, gamma_{n+1} for LL^T, lower triangle), solve / inv / inv_ residuals |b-Ax| <= 4*gamma_{3n(+2)}*(|L||D||L^T|)|x|, det/lndet/sgndet against '
          'products/sums of the stored pivots and against each other, extraction helpers exact, singular classes must fail and dominant classes must succeed. non-trivial = n >= 4 and (a row exchange happened, or a '
          'non-default symmetric class, or a singular class that was reported); distinct = hash of (kind, n, matrix entries)',
